@@ -35,6 +35,7 @@ RULE += (' Also: re-entrant histories with warm-up nodes (the first run for an a
 RULE += (' Also: re-entrant histories in which a run clears the cache it is computed for.')
 RULE += (' Also: transient failures in re-entrant histories (the first-started run for an argument fails after its warm-up call succeeded).')
 RULE += (' Also: a cache stacked on a cache against two functools layers (clears of either layer, direct calls of the inner one).')
+RULE += (' Also: a keyword of one call as positional (name, value) tuple of another; keyword order permutations.')
 ASSUMPTIONS = ["functools.lru_cache (C implementation of the running 3.12 interpreter) is the reference",
                "cache_discard has no stdlib twin: reference is the cross-validated model"]
 EXHAUSTIVE_SUBSPACES = 'all histories of length <= 4 (thorough: 5) over 7 operations for maxsize 1 and 2'
@@ -114,6 +115,18 @@ def cases(tier, seed, shard, nshards):
     for _ in range(N_RANDOM[tier] // nshards):
         small = rng.random() < 0.6
         pats = [rand_pattern(rng, small) for _ in range(rng.randint(1, 6))]
+        if rng.random() < 0.25:
+            # look-alikes: a keyword argument of one pattern turns up as a positional ``(name, value)`` TUPLE in another
+            # (first or last positional); nothing but the layout of the key keeps the two calls apart
+            withkw = [p for p in pats if p[1]]
+            if withkw:
+                base = rng.choice(withkw)
+                j = rng.randrange(len(base[1]))
+                item = ["T", base[1][j][0], base[1][j][1]]
+                rest = base[1][:j] + base[1][j + 1:]
+                pats.append([base[0] + [item], rest] if rng.random() < 0.5 else [[item] + base[0], rest])
+                if len(base[1]) > 1 and rng.random() < 0.5:
+                    pats.append([base[0], list(reversed(base[1]))])  # ... and the same keywords in another order
         ops = []
         for _ in range(rng.randint(1, 40)):
             r = rng.random()
